@@ -163,7 +163,7 @@ def agree_ref(ctx, fi, ref_src, title, what=('return', 'heap', 'substores'), rul
     if 'calls' in what:
         def selc(II, own):
             return [e for e in II.events if e.kind == 'call' and (own is None or e.func.short == own)
-                    and (e.data.get('resolved') is not None or e.data.get('method'))]
+                    and (e.data.get('resolved') is not None or 'candidates' in e.data)]
         ca, cb = selc(I, fi.short), selc(IR, None)
         if [e.data['name'] for e in ca] != [e.data['name'] for e in cb]:
             ctx.ob(rule, f'{title}: same sequence of method/package calls as the reference', fi, False,
@@ -171,8 +171,12 @@ def agree_ref(ctx, fi, ref_src, title, what=('return', 'heap', 'substores'), rul
                    construct='call sequence')
         else:
             for ea, eb in zip(ca, cb):
-                aa = T.mk_tuple(list(ea.data['args']) + [v for _, v in sorted(ea.data['kwargs'])])
-                ab = T.mk_tuple(list(eb.data['args']) + [v for _, v in sorted(eb.data['kwargs'])])
+                def packed(e):
+                    extra = [e.data.get('star') if e.data.get('star') is not None else T.NONE,
+                             e.data.get('dstar') if e.data.get('dstar') is not None else T.NONE]
+                    names = T.mk_tuple([lift(k) for k, _ in sorted(e.data['kwargs'])])
+                    return T.mk_tuple(list(e.data['args']) + [names] + [v for _, v in sorted(e.data['kwargs'])] + extra)
+                aa, ab = packed(ea), packed(eb)
                 ctx.formula(rule, f'{title}: arguments of {ea.data["name"]} == reference', fi, aa, ab, node=ea.node,
                             construct=ea.text()[:80] + ' [args]')
                 ctx.formula(rule, f'{title}: condition of the {ea.data["name"]} call == reference', fi, ea.cond(), eb.cond(),
